@@ -175,11 +175,11 @@ type world struct {
 	targets  map[string]*target // by canonical address (all peers; addresses are disjoint)
 	dns      map[string]dnsEntry
 	dnsSeen  map[string]bool
-	punch    bool           // hole-punch sub-stratum of the QUIC stratum (see sim_test.go)
-	reuseOff bool           // quicreuse.DisableReuseport() on the dialing node
+	punch    bool                    // hole-punch sub-stratum of the QUIC stratum (see sim_test.go)
+	reuseOff bool                    // quicreuse.DisableReuseport() on the dialing node
 	rcmgr    network.ResourceManager // the dialing node's REAL resource manager (QUIC stratum), nil = NullResourceManager
-	quic     bool           // QUIC stratum: /quic-v1 addresses go to the REAL QUIC transport over simnet's UDP wire
-	udpLost  map[string]int // sLossyStart: datagrams dropped so far in the current dial, by destination
+	quic     bool                    // QUIC stratum: /quic-v1 addresses go to the REAL QUIC transport over simnet's UDP wire
+	udpLost  map[string]int          // sLossyStart: datagrams dropped so far in the current dial, by destination
 	recs     []*dialRec
 	dnsCalls int
 }
